@@ -1110,6 +1110,7 @@ func vspecCWM(src []byte) int { return vspecCW(src) + 2 + vspecBE16(src, vspecCW
 
 // Clone: a new message object decoded from a fresh encoding of m (never aliases m or its buffers).
 //@ func (*PublishMessage).Clone
+//@   flag bodyhash 90351d5115df
 //@   trusted
 //@   results cm, err
 //@   requires len(m.mtypeflags) == 1
